@@ -82,3 +82,43 @@ Example aromatic_cut_nonvacuous :
   result_order exAr 0 1 = Some (VFlt (S "1.5")) /\ forallb (cut_faithful exAr) (cuts exAr) = true /\
   forallb (cut_faithful exC) (cuts exC) = true.
 Proof. vm_compute. auto 10. Qed.
+
+(** ---------------------------------------------------------------- the hydrogen completion of the example (CutHydrogens) *)
+From CGV Require Hydro.Hydrogens Hydro.Squash Hydro.SquashDefs.
+From CGV Require Import Compose.CutHydrogens.
+
+Definition exC_run : option (graph * graph * graph) :=
+  match resolve_disconnected (fragdict_of exC) (base_of exC) with
+  | Ok (m1, fg1) =>
+      match bonding_step true true (base_of exC) m1 fg1 with
+      | Ok (m2, _) =>
+          match Squash.squash_atoms m2 with
+          | Ok m3 => match Hydrogens.rebuild_h_atoms_default m3 (Some m3) with
+                     | Ok g4 => match sort_nodes_by_attr g4 with Ok g5 => Some (m3, g4, g5) | Err _ => None end
+                     | Err _ => None end
+          | Err _ => None end
+      | Err _ => None end
+  | Err _ => None end.
+
+(** the hypotheses of [cut_hydrogens] / [cut_sorted] hold on the example, the run returns, and the atoms receive
+    2, 1, 2, 0, 1, 1 hydrogens (C11, C10, N15, C12, C13, O14): thirteen nodes, the skeleton edges unchanged *)
+Example cut_hydrogens_nonvacuous :
+  (forall x, In x (flat exC) ->
+     (exists e, aget (S "element") (payload exC x) = Some e) /\ (exists q, aget (S "charge") (payload exC x) = Some q) /\
+     (exists h, aget (S "hcount") (payload exC x) = Some (VInt h)) /\ Hydrogens.is_H (payload exC x) = false) /\
+  (forall b, In b (c_bonds exC) -> numeric (cb_ord b)) /\
+  match exC_run with
+  | Some (m3, g4, g5) =>
+      length m3 = 6%nat /\ length g4 = 13%nat /\
+      map (fun k => length (neighbors g4 k)) [0; 1; 2; 3; 4; 5] = [4; 4; 3; 3; 3; 2]%nat /\
+      map (bond_sum exC) [11; 10; 15; 12; 13; 14] = [4; 6; 2; 8; 6; 2] /\
+      SquashDefs.wf_graphb g4 = true /\ map fst (get_node_attributes g4 (S "fragid")) = node_keys g4 /\
+      length g5 = 13%nat
+  | None => False
+  end.
+Proof.
+  split; [|split].
+  - intros x Hx. cbn in Hx. repeat destruct Hx as [<-|Hx]; try contradiction; repeat split; try (eexists; vm_compute; reflexivity); vm_compute; reflexivity.
+  - intros b Hb. cbn in Hb. repeat destruct Hb as [<-|Hb]; try contradiction; eexists; vm_compute; reflexivity.
+  - vm_compute. repeat split; reflexivity.
+Qed.
